@@ -43,6 +43,12 @@ class ScoreCache(StructureScore):
         hashable = tuple(parents)
         return self.cache(variable, hashable)
 
+    def structure_prior(self, model):
+        return self.base_scorer.structure_prior(model)
+
+    def structure_prior_ratio(self, operation):
+        return self.base_scorer.structure_prior_ratio(operation)
+
     def _wrapped_original(self, variable, parents):
         expected = list(parents)
         return self.base_scorer.local_score(variable, expected)
